@@ -1561,6 +1561,11 @@ func check(p *pipeline, m map[int]*nameState, trace []ev, modeA, touched, failed
 				sfx := r.sfx
 				if sfx == "" {
 					sfx = overSfx
+					// (the callback that lost its side is named by another call - side:star:rewritten -:
+					// the precondition of the known rewriting holds for it)
+					if sfx != "" && strings.HasSuffix(r.class, ":rewritten") && !strings.HasSuffix(sfx, ":rewritten") {
+						sfx += ":rewritten"
+					}
 				}
 				if strings.HasSuffix(sfx, ":rewritten") {
 					pr = problem{"contradiction-accepted" + sfx, "the requested constraints cannot all hold, yet no call returned an error: " + r.text}
